@@ -621,7 +621,7 @@ class World:
                     setattr(mc, k, v)
                     self.result.count("fault.param_change")
         pre = self.sc.get("preselect", {}).get(t)
-        if pre and name in self.mc.moves:
+        if pre and name in self.mc.moves and type(self.mc.moves[name].move).__name__ != "CompositeMove":
             from quansino.moves.displacement import DisplacementMove
             from quansino.moves.exchange import ExchangeMove
 
